@@ -381,9 +381,42 @@ def gen_histories(v0, depth, level, kinds, labels=None, per_evolution=1):
     return out
 
 
+def dep_histories():
+    """Hand-written two-app histories with cross-app evolution
+    dependencies (an evolution of va must follow / precede an evolution of
+    vab that may have been applied by an earlier run)."""
+    v0 = S.P(S.A('va', [S.M('Item', [S.F('a', 'Char', max_length=20)])]),
+             S.A('vab', [S.M('Thing', [S.F('t', 'Char', max_length=20)])]))
+    add_b1 = ['AddField', 'Thing', 'n1', 'Int', {'null': True}, None]
+    add_a1 = ['AddField', 'Item', 'n1', 'Int', {'null': True}, None]
+    add_a2 = ['AddField', 'Item', 'n2', 'Int', {'db_index': True}, 4]
+    add_b2 = ['AddField', 'Thing', 'n2', 'Char', {'max_length': 10,
+                                                   'null': True}, None]
+    out = []
+    for kind in ('AFTER_EVOLUTIONS', 'BEFORE_EVOLUTIONS'):
+        for target in (('vab', 'b1'), 'vab'):
+            out.append(('dep-%s-%s' % (kind.split('_')[0].lower(),
+                                       'app' if target == 'vab'
+                                       else 'label'),
+                        v0,
+                        [('vab', 'b1', [add_b1]), ('va', 'a1', [add_a1]),
+                         ('va', 'a2', [add_a2])],
+                        {('va', 'a1'): {kind: [target]}}))
+    out.append(('dep-after-label-later-b', v0,
+                [('vab', 'b1', [add_b1]), ('va', 'a1', [add_a1]),
+                 ('vab', 'b2', [add_b2])],
+                {('va', 'a1'): {'AFTER_EVOLUTIONS': [('vab', 'b1')]}}))
+    out.append(('dep-app-level', v0,
+                [('vab', 'b1', [add_b1]), ('va', 'a1', [add_a1]),
+                 ('va', 'a2', [add_a2])],
+                {('va', None): {'AFTER_EVOLUTIONS': ['vab']}}))
+    return out
+
+
 def work(task):
-    name, v0, steps, driver = task
-    hist = EB.History(v0, steps)
+    name, v0, steps, driver = task[:4]
+    deps = EB.deps_from_json(task[4]) if len(task) > 4 else None
+    hist = EB.History(v0, steps, deps)
     hr = HistoryRun(hist, driver)
     hr.run()
     return name, hr.stats, hr.viol
@@ -406,6 +439,19 @@ def tasks_for(tier):
                 tasks.append(('%s#%d' % (name, i), v0, steps, d))
     narrow = c03.narrow_start()
     two = c03.two_model_start()
+    # cross-app dependencies between evolutions (all drivers, both tiers)
+    for name, v0d, stepsd, depsd in dep_histories():
+        if only and only not in name:
+            continue
+        dj = EB.History(v0d, stepsd, depsd).describe()['deps']
+        for d in ('D2', 'D3', 'D4'):
+            tasks.append((name, v0d, stepsd, d, dj))
+    # an app whose label differs from its package name
+    pkg = S.clone(narrow)
+    pkg['apps'][0]['package'] = 'vapkg'
+    add('narrow-pkg-h2', pkg, 2, 'lite', ('AddField', 'ChangeField',
+                                          'DeleteField'),
+        ('D2', 'D3'), 7 if tier == 'quick' else 2)
     if tier == 'quick':
         add('narrow-h2', narrow, 2, 'lite', KINDS, ('D2', 'D3'), 1)
         add('narrow-h2', narrow, 2, 'lite', KINDS, ('D4',), 10)
@@ -477,7 +523,8 @@ def replay(path):
     doc = common.load_replay(path)
     r = doc['replay']
     steps = [(l, el, mjs) for l, el, mjs in r['history']['steps']]
-    hist = EB.History(r['history']['v0'], steps)
+    hist = EB.History(r['history']['v0'], steps,
+                      EB.deps_from_json(r['history'].get('deps')))
     hr = HistoryRun(hist, r['driver'], r.get('rows', 'R2'))
     hr.run()
     for fp, ent in hr.viol.items():
